@@ -1,6 +1,6 @@
 (** Model of pkg/auth/any_authorizer.go and pkg/blobstore/authorizing_blob_access.go.
     Definitions only (proofs: AuthProofs.v). *)
-From BBS Require Import Common.Sx.
+From BBS Require Import Common.Sx Common.ListX.
 
 (** gRPC codes as Z: 0 = OK (allowed), 7 = PermissionDenied (denied), anything
     else = a failure other than denial. *)
@@ -98,13 +98,6 @@ Record aresult := {
   buf : bufev;
   calls : list call;
 }.
-
-Fixpoint insert_sorted (n : nat) (l : list nat) : list nat :=
-  match l with
-  | [] => [n]
-  | h :: t => if Nat.ltb n h then n :: l else if Nat.eqb n h then l else h :: insert_sorted n t
-  end.
-Definition dedup_sort (l : list nat) : list nat := fold_right insert_sorted [] l.
 
 Fixpoint first_nonallowed (vs : list vd) : option vd :=
   match vs with
